@@ -68,5 +68,7 @@ func GenRace(t *rapid.T) *RaceCase {
 		Slow:    rapid.IntRange(0, 5).Draw(t, "slow"),
 		Procs:   rapid.SampledFrom([]int{2, 4, 16}).Draw(t, "procs"),
 		Ctx:     rapid.Bool().Draw(t, "ctx"),
+		Mode:    rapid.SampledFrom([]string{"", "last", "free", "free"}).Draw(t, "mode"),
+		WaitSpin: rapid.SampledFrom([]int{0, 1, 50, 300, 1500}).Draw(t, "waitspin"),
 	}
 }
